@@ -213,6 +213,7 @@ struct Rules<'a> {
     r3: bool,
     r4: bool,
     r9: bool,
+    r10: bool,
     hoists: &'a [Value],
     inlines: &'a [Value],
     for_iters: &'a [Value],
@@ -340,6 +341,34 @@ impl<'a> VisitMut for Rules<'a> {
             }
         }
     }
+    fn visit_expr_if_mut(&mut self, ei: &mut syn::ExprIf) {
+        // R4 for `if let`: `if let Some(&x) = E { B }` ↦ `if let Some(x_ref) = E { let x = *x_ref; B }`
+        if self.r4 {
+            if let Expr::Let(l) = &mut *ei.cond {
+                if let Pat::TupleStruct(ts) = &mut *l.pat {
+                    if ts.elems.len() == 1 {
+                        let mut repl: Option<(syn::Ident, syn::Ident, Option<syn::token::Mut>)> = None;
+                        if let Some(Pat::Reference(pr)) = ts.elems.first() {
+                            if let Pat::Ident(pi) = &*pr.pat {
+                                let x = pi.ident.clone();
+                                let xr = syn::Ident::new(&format!("{}_ref", x), Span::call_site());
+                                repl = Some((x, xr, pi.mutability));
+                            }
+                        }
+                        if let Some((x, xr, mutability)) = repl {
+                            self.log.push(json!({"rule":"R4","file":self.file,"line":Self::line(x.span()),
+                                "what":format!("in {}: `if let ..(&{}) = ..` written as `if let ..({}) = .. {{ let {} = *{}; ..}}`", self.cur_fn, x, xr, x, xr)}));
+                            let np: Pat = parse_quote!(#xr);
+                            *ts.elems.first_mut().unwrap() = np;
+                            let st: Stmt = parse_quote!(let #mutability #x = *#xr;);
+                            ei.then_branch.stmts.insert(0, st);
+                        }
+                    }
+                }
+            }
+        }
+        visit_mut::visit_expr_if_mut(self, ei);
+    }
     fn visit_expr_for_loop_mut(&mut self, f: &mut syn::ExprForLoop) {
         // R9 (configured form): `for x in E` where E has a reference-to-collection type is `for x in E.iter()`
         // (std: `impl IntoIterator for &HashSet<T>` / `&Vec<T>` is `self.iter()`)
@@ -354,6 +383,31 @@ impl<'a> VisitMut for Rules<'a> {
                     "what":format!("in {}: `for .. in {}` written as `for .. in {}.{}()` (std's IntoIterator impl for references to collections)", self.cur_fn, pat, pat, m)}));
                 f.expr = Box::new(parse_quote!(#inner.#m()));
                 break;
+            }
+        }
+        // R10: `for .. { A; if C { continue; } B }` ↦ `for .. { A; if C { } else { B } }` (definition of `continue`:
+        // skip the rest of the body) — Verus does not support `continue` in for-loops
+        if self.r10 {
+            let stmts = &mut f.body.stmts;
+            let mut at: Option<usize> = None;
+            for (k, st) in stmts.iter().enumerate() {
+                if let Stmt::Expr(Expr::If(ei), _) = st {
+                    if ei.else_branch.is_none() && ei.then_branch.stmts.len() == 1 {
+                        if let Stmt::Expr(Expr::Continue(c), _) = &ei.then_branch.stmts[0] {
+                            if c.label.is_none() { at = Some(k); break; }
+                        }
+                    }
+                }
+            }
+            if let Some(k) = at {
+                let rest: Vec<Stmt> = stmts.drain(k + 1..).collect();
+                if let Stmt::Expr(Expr::If(ei), _) = &mut stmts[k] {
+                    self.log.push(json!({"rule":"R10","file":self.file,"line":Self::line(ei.if_token.span),
+                        "what":format!("in {}: `if .. {{ continue; }} REST` in a for-loop body written as `if .. {{ }} else {{ REST }}`", self.cur_fn)}));
+                    ei.then_branch.stmts.clear();
+                    let eb: syn::Block = parse_quote!({ #(#rest)* });
+                    ei.else_branch = Some((Default::default(), Box::new(Expr::Block(syn::ExprBlock { attrs: vec![], label: None, block: eb }))));
+                }
             }
         }
         if self.r9 {
@@ -666,7 +720,7 @@ fn main() {
                 // 2. rules
                 AttrStrip { derive_keep: &derive_keep, log: &mut log, file, apply_r2: rules.contains("R2") }.visit_item_mut(&mut item);
                 let mut r = Rules {
-                    r1: rules.contains("R1"), r3: rules.contains("R3"), r4: rules.contains("R4"), r9: rules.contains("R9"),
+                    r1: rules.contains("R1"), r3: rules.contains("R3"), r4: rules.contains("R4"), r9: rules.contains("R9"), r10: rules.contains("R10"),
                     hoists, inlines, for_iters, log: &mut log, file, cur_fn: String::new(), hoist_hits: vec![0; hoists.len()],
                 };
                 r.visit_item_mut(&mut item);
